@@ -15,6 +15,7 @@ import (
 	"sort"
 	"strconv"
 	"strings"
+	"time"
 
 	"golang.org/x/telemetry/internal/counter"
 	"golang.org/x/telemetry/internal/verifh/shim/vsched"
@@ -63,7 +64,28 @@ func body(t thr) func() {
 	}
 }
 
+// scenario under a watchdog: a step of the code under test that never reaches
+// its next scheduling point is reported as status "hang".
 func scenario(ths []thr, pl *plan) int {
+	res := make(chan int, 1)
+	go func() { res <- scenario1(ths, pl) }()
+	select {
+	case n := <-res:
+		return n
+	case <-time.After(20 * time.Second):
+		fields := []string{"sconc", "hang", I(int64(len(ths)))}
+		for _, t := range ths {
+			fields = append(fields, I(int64(t.sid)), I(int64(t.k)))
+		}
+		fields = append(fields, I(0), I(0), I(0))
+		out.Case(true, fields...)
+		out.Close()
+		os.Exit(0)
+	}
+	return 0
+}
+
+func scenario1(ths []thr, pl *plan) int {
 	vf := counter.VerifNewFile()
 	sc = vf.NewStack("st", 8)
 	s := vsched.New(true)
